@@ -50,7 +50,7 @@ func (c *Case) write(w *bufio.Writer) {
 		switch o.Kind {
 		case "put", "crashtorn", "crashtornhdr":
 			fmt.Fprintf(w, "%s %s %s\n", o.Kind, hx(o.K), valSpec(o.V))
-		case "growchain", "thinchain", "pushsplit", "killsegment", "rewritechain":
+		case "growchain", "thinchain", "pushsplit", "killsegment", "rewritechain", "fillseg":
 			fmt.Fprintf(w, "%s %d\n", o.Kind, len(o.V))
 		case "del", "get", "has":
 			fmt.Fprintf(w, "%s %s\n", o.Kind, hx(o.K))
@@ -144,7 +144,7 @@ func readCases(path string) []*Case {
 			cur = nil
 		case "put", "getappend", "crashtorn", "crashtornhdr":
 			cur.Ops = append(cur.Ops, Op{Kind: fs[0], K: unhx(fs[1]), V: unhx(fs[2])})
-		case "growchain", "thinchain", "pushsplit", "killsegment", "rewritechain":
+		case "growchain", "thinchain", "pushsplit", "killsegment", "rewritechain", "fillseg":
 			n := 0
 			if len(fs) > 1 {
 				n, _ = strconv.Atoi(fs[1])
@@ -692,6 +692,16 @@ func (h *harness) genCase(r *rng, name, stream string, nops int) *Case {
 			c.Ops = append(c.Ops, Op{Kind: "put", K: k, V: val(k)})
 			continue
 		}
+		if c.Cfg.MaxSeg <= 4096 && r.chance(3) {
+			// segment-shape macros: a record ending exactly at (or one byte around) the segment limit;
+			// a sealed segment with no live record left
+			if r.chance(70) {
+				c.Ops = append(c.Ops, Op{Kind: "fillseg", V: make([]byte, r.intn(3))})
+			} else {
+				c.Ops = append(c.Ops, Op{Kind: "killsegment"})
+			}
+			continue
+		}
 		switch r.pick(wPut, wDel, wGet, wHas, wCount, wItems, wSync, wCompact, wReopen, wCrash, wDump, wGA) {
 		case 0:
 			k := key()
@@ -882,7 +892,7 @@ func (s *session) checkpoint(withDump bool) {
 
 func isMacro(kind string) bool {
 	switch kind {
-	case "growchain", "thinchain", "pushsplit", "killsegment", "rewritechain":
+	case "growchain", "thinchain", "pushsplit", "killsegment", "rewritechain", "fillseg":
 		return true
 	}
 	return false
@@ -1017,6 +1027,23 @@ func (s *session) macro(kind string, n int) {
 				}
 			}
 		}
+	case "fillseg":
+		// one record that ends exactly at the segment limit (n = 1), one byte short (0) or one over (2)
+		var curSize int64 = -1
+		for _, sg := range s.db.VerifSegments() {
+			if sg.Current {
+				curSize = sg.Size
+			}
+		}
+		if curSize < 0 {
+			return
+		}
+		k := s.freshKey(func(uint32) bool { return true })
+		room := int64(s.c.Cfg.MaxSeg) - curSize - 10 - int64(len(k)) + int64(n) - 1
+		if room < 0 || room > 4000 {
+			return
+		}
+		s.userOp(SubOp{Kind: "put", K: k, V: patternBytes(int(room), byte(s.r.next()))})
 	case "rewritechain":
 		// overwrite about a third of the keys of the longest chain (existing keys behind holes)
 		target := s.longest(cs)
@@ -1444,7 +1471,7 @@ func (s *session) crashTorn(o Op, hdr bool) {
 func (s *session) userOp(u SubOp) {
 	h := s.h
 	switch u.Kind {
-	case "growchain", "thinchain", "pushsplit", "killsegment", "rewritechain":
+	case "growchain", "thinchain", "pushsplit", "killsegment", "rewritechain", "fillseg":
 		s.macro(u.Kind, len(u.V))
 		return
 	}
@@ -1680,7 +1707,7 @@ func (h *harness) runCase(c *Case, stream string, r *rng) {
 			if c.Cfg.SyncMode && err == nil {
 				h.emit("syncpoint")
 			}
-		case "growchain", "thinchain", "pushsplit", "killsegment", "rewritechain":
+		case "growchain", "thinchain", "pushsplit", "killsegment", "rewritechain", "fillseg":
 			s.macro(o.Kind, len(o.V))
 		case "emptybucket":
 			// adaptive: delete every key stored in one non-tail bucket of a multi-bucket chain
